@@ -41,10 +41,16 @@ theorem tie_periodScriptCall : periodScriptCall =
     ["ctx", "periodScript", "|", "h.keyPrefix + key", "|", "strconv.Itoa(h.quota)",
      "strconv.Itoa(h.calcExpireSeconds())"] := by decide
 
-/-- without `Align`, the window is `h.period` -/
-theorem tie_calcExpire : calcExpireShape =
-    ["if h.align {", "now := time.Now(…)", "_, offset := now.Zone(…)",
-     "return h.period - int(unix%int64(h.period))", "}", "return h.period"] := by decide
+/-- `calcExpireSeconds`, every statement: with `Align()` the window is `period - (now.Unix()+offset) % period`
+(`calcExpireZ true`), without it `h.period` -/
+theorem tie_calcExpire : calcExpireShape = calcExpireStmts := by decide
+
+/-- `Take` is `TakeCtx` with the background context; `Align()` sets exactly the `align` flag; `NewPeriodLimit` stores
+its arguments in the fields of the same name (period ↔ quota not swapped) -/
+theorem tie_periodWrappers :
+    takeWrapShape = ["return h.TakeCtx(context.Background(), key)"] ∧
+    alignShape = ["return func(l *PeriodLimit) { l.align = true }"] ∧
+    periodInit = ["period", "quota", "limitStore", "keyPrefix"] := by decide
 
 /-- the script gets KEYS = [tokens, ts], ARGV = [rate, burst, now.Unix(), n] in this order -/
 theorem tie_tokenScriptCall : tokenScriptCall =
@@ -79,5 +85,13 @@ theorem tie_waitForRedisShape : waitForRedisShape =
      "if lim.store.Ping() {", "atomic.StoreUint32(&lim.redisAlive, 1)", "return", "}", "}"] := by decide
 
 theorem tie_allowNShape : allowNShape = ["return lim.reserveN(context.Background(), now, n)"] := by decide
+
+/-- the other entry points pass their arguments through unchanged (`n`, `now`, the context), `Allow`/`AllowCtx` ask for
+one token at `time.Now()`; `NewTokenLimiter` stores rate, burst and store in the fields of the same name -/
+theorem tie_tokenWrappers :
+    allowNCtxShape = ["return lim.reserveN(ctx, now, n)"] ∧
+    allowShape = ["return lim.AllowN(time.Now(), 1)"] ∧
+    allowCtxShape = ["return lim.AllowNCtx(ctx, time.Now(), 1)"] ∧
+    limiterFields = ["rate", "burst", "store"] := by decide
 
 end GoZero.C03.Tie
